@@ -51,7 +51,9 @@ def run(chk, tier, seed):
         for n in (0, 1, 2):
             parts += ascii_parts(n)
         parts += ascii_parts(3, ALPHABET24, chunks=24)
-        bounds = 'all ASCII strings of length <= 2; all strings of length 3 over the 24-symbol alphabet %r' % ALPHABET24.decode()
+        parts += unicode_parts(2, ALPHABET24)
+        bounds = ('all ASCII strings of length <= 2; all strings of length 3 over the 24-symbol alphabet %r; all strings of <= 2 scalar values drawn from '
+                  'that alphabet, U+00A0, U+00E9, U+20AC, U+1F600 with at least one non-ASCII' % ALPHABET24.decode())
     else:
         for n in (0, 1, 2, 3):
             parts += ascii_parts(n, chunks=64 if n == 3 else 16)
